@@ -271,37 +271,59 @@ fn lines_chunks(pieces: &[Vec<u8>], direct: bool, rep: &mut Report) -> String {
     }
 }
 
-/// the real `LinesCodec` under the real `Framed`: the pieces are the reads, then end of file; the
-/// stream is polled `pieces + LFs + 4` times.  T3 (C15): the items are the reference lines, then
-/// `None` and nothing but `None` — no error that the codec did not raise (a lone CR that
-/// `decode_eof` leaves in the buffer is not an error)
-fn lines_framed(pieces: &[Vec<u8>], style: u8, rep: &mut Report) -> String {
+/// the real `LinesCodec` under the real `Framed`: the tokens are the answers of the transport (a
+/// piece of data, or `None` = Pending), then end of file; the stream is polled
+/// `reads + pendings + LFs + 4` times.  T3 (C15): the items are the reference lines, then `None` and
+/// nothing but `None` — no error that the codec did not raise (a lone CR that `decode_eof` leaves in
+/// the buffer is not an error); every scripted Pending is answered once; and whenever the stream
+/// answers Pending, every complete line of the bytes delivered so far has already been yielded (a
+/// Pending must not hold back a frame that is buffered)
+fn lines_framed(tokens: &[Option<Vec<u8>>], style: u8, rep: &mut Report) -> String {
+    let pieces: Vec<Vec<u8>> = tokens.iter().flatten().cloned().collect();
     let whole: Vec<u8> = pieces.concat();
+    let shown = tokens.iter().map(|t| t.as_ref().map_or("p".to_string(), |p| hex(p))).collect::<Vec<_>>().join(" ");
     let mut s = Session::new(Sel::Lines, Init::New, style);
-    s.io.0.borrow_mut().rscript.extend(pieces.iter().filter(|p| !p.is_empty()).map(|p| Rd::Data(p.clone())));
-    let polls = pieces.iter().filter(|p| !p.is_empty()).count() + whole.iter().filter(|b| **b == b'\n').count() + 4;
+    s.io.0.borrow_mut().rscript.extend(tokens.iter().filter(|t| t.as_ref().map_or(true, |p| !p.is_empty())).map(|t| match t {
+        Some(p) => Rd::Data(p.clone()),
+        None => Rd::Pending,
+    }));
+    let n_pending = tokens.iter().filter(|t| t.is_none()).count();
+    let polls = pieces.iter().filter(|p| !p.is_empty()).count() + n_pending + whole.iter().filter(|b| **b == b'\n').count() + 4;
     let mut outs = vec![];
+    let as_out = |l: LineItem| match l {
+        LineItem::Ok(v) => Out::Item(v),
+        LineItem::Err => Out::DecErr(io::ErrorKind::InvalidData),
+    };
     for _ in 0..polls {
         match s.poll_next(false) {
-            Ok(o) => outs.push(o),
+            Ok(o) => {
+                if o == Out::Pending {
+                    // every complete (LF-terminated) line delivered so far must be out already
+                    let io = s.io.0.borrow();
+                    let d = &io.delivered;
+                    let upto = d.iter().rposition(|b| *b == b'\n').map_or(0, |p| p + 1);
+                    let complete = lines_reference(&d[..upto]).len();
+                    let yielded = outs.iter().filter(|o: &&Out| o.is_frame()).count();
+                    if yielded < complete {
+                        rep.t3("C15", &format!("LinesCodec under Framed, transport script {shown}: the stream answered Pending with {yielded} of the {complete} complete lines of the {} bytes delivered so far yielded (a buffered line is held back until the transport answers again)", d.len()));
+                    }
+                }
+                outs.push(o)
+            }
             Err(_) => {
-                rep.t3("C15", &format!("Framed<_, LinesCodec> panicked on {}", hex(&whole)));
+                rep.t3("C15", &format!("Framed<_, LinesCodec> panicked on {shown}"));
                 return "panic".into();
             }
         }
     }
-    let mut want: Vec<Out> = lines_reference(&whole)
-        .into_iter()
-        .map(|l| match l {
-            LineItem::Ok(v) => Out::Item(v),
-            LineItem::Err => Out::DecErr(io::ErrorKind::InvalidData),
-        })
-        .collect();
-    while want.len() < outs.len() {
+    let mut want: Vec<Out> = lines_reference(&whole).into_iter().map(as_out).collect();
+    let frames: Vec<Out> = outs.iter().filter(|o| o.is_frame()).cloned().collect();
+    while want.len() < frames.len() {
         want.push(Out::None);
     }
-    if outs != want {
-        rep.t3("C15", &format!("LinesCodec under Framed, reads {} then end of file: the stream yields [{}] but the reference splitter says [{}]", pieces.iter().map(|p| hex(p)).collect::<Vec<_>>().join(" "), show_outs(&outs), show_outs(&want)));
+    let pend = outs.iter().filter(|o| **o == Out::Pending).count();
+    if frames != want || pend != n_pending || outs.iter().any(|o| matches!(o, Out::IoErr(_))) {
+        rep.t3("C15", &format!("LinesCodec under Framed, transport script {shown} then end of file: the stream yields [{}] but the reference splitter says [{}] (and {n_pending} Pending)", show_outs(&outs), show_outs(&want)));
     }
     format!("[{}]", outs.iter().map(|o| o.show()).collect::<Vec<_>>().join(","))
 }
@@ -538,12 +560,12 @@ fn gen_c15(a: &Args, w: &mut dyn Write) {
     // a partial line, alone, doubled) in every split into up to three reads
     {
         let lf = if thorough { 5 } else { 4 };
-        let mut n = 0usize;
-        let mut line = |w: &mut dyn Write, ps: &[Vec<u8>]| {
-            if n % 8000 == 0 {
-                writeln!(w, "case lines-framed-{}", n / 8000).unwrap();
+        let n = std::cell::Cell::new(0usize);
+        let line = |w: &mut dyn Write, ps: &[Vec<u8>]| {
+            if n.get() % 8000 == 0 {
+                writeln!(w, "case lines-framed-{}", n.get() / 8000).unwrap();
             }
-            n += 1;
+            n.set(n.get() + 1);
             writeln!(w, "framed {}", ps.iter().map(|p| hex(p)).collect::<Vec<_>>().join(" ")).unwrap();
         };
         all_strings(&LINES_ALPHABET, lf, &mut |s| {
@@ -551,6 +573,31 @@ fn gen_c15(a: &Args, w: &mut dyn Write) {
                 line(w, &ps);
             }
         });
+        // a Pending must not hold back a frame: two or more complete lines in ONE read, then the
+        // transport is idle (Pending, repeatedly), then more / end of file
+        let pline = |w: &mut dyn Write, toks: &[String]| {
+            if n.get() % 8000 == 0 {
+                writeln!(w, "case lines-framed-{}", n.get() / 8000).unwrap();
+            }
+            n.set(n.get() + 1);
+            writeln!(w, "framed {}", toks.join(" ")).unwrap();
+        };
+        all_strings(&LINES_ALPHABET, lf, &mut |s| {
+            if s.is_empty() {
+                return;
+            }
+            pline(w, &[hex(s), "p".into(), "p".into(), "p".into()]);
+            for ps in splits(s, 2) {
+                if ps[0].is_empty() || ps[1].is_empty() {
+                    continue;
+                }
+                pline(w, &[hex(&ps[0]), "p".into(), hex(&ps[1]), "p".into()]);
+                pline(w, &["p".into(), hex(&ps[0]), hex(&ps[1]), "p".into(), "p".into()]);
+            }
+        });
+        for st in [&b"a\nb\n"[..], b"a\nb\nc\n", b"a\r\nb\r\nc", b"\n\n\n", b"a\n\xff\nb\n", "é\nü\n".as_bytes()] {
+            pline(w, &[hex(st), "p".into(), "p".into(), "p".into(), hex(b"z\n"), "p".into()]);
+        }
         for st in [&b"\r"[..], b"ab\r", b"a\n\r", b"a\r\n\r", b"\r\r", b"a\nb\r", b"\n\r", b"a\r\r", "é\r".as_bytes(), b"\xff\r", b"a\n\r\n\r"] {
             for k in 1..=3 {
                 for ps in splits(st, k) {
@@ -622,7 +669,7 @@ fn step_c15(ws: &[&str], rep: &mut Report) -> Option<String> {
             Some(ps) => lines_chunks(&ps, *op == "chunkse", rep),
             None => "bad-op".into(),
         },
-        ["framed", hs @ ..] if !hs.is_empty() => match hs.iter().map(|h| unhex(h).filter(|p| p.len() <= MAX_CHUNK)).collect::<Option<Vec<Vec<u8>>>>() {
+        ["framed", hs @ ..] if !hs.is_empty() => match hs.iter().map(|h| if *h == "p" { Some(None) } else { unhex(h).filter(|p| p.len() <= MAX_CHUNK).map(Some) }).collect::<Option<Vec<Option<Vec<u8>>>>>() {
             Some(ps) => lines_framed(&ps, (ps.len() % 4) as u8, rep),
             None => "bad-op".into(),
         },
